@@ -90,7 +90,7 @@ class Ser:
         self.hoist = []
         self.helpers = {}
 
-    def inline(self, call):
+    def inline(self, call, result=None):
         """statements of the helper `self._h(args)` with its parameters replaced by the argument expressions"""
         import copy
         fn = self.helpers[call.func.attr]
@@ -108,6 +108,11 @@ class Ser:
             body = body[1:]
         if body and isinstance(body[-1], ast.Return) and body[-1].value is None:
             body = body[:-1]
+        if result is not None:
+            if not (body and isinstance(body[-1], ast.Return) and body[-1].value is not None):
+                fail('helper method used for its value does not end with `return E`', call)
+            body = body[:-1] + [ast.Assign(targets=[ast.Name(id='@result', ctx=ast.Store())], value=body[-1].value,
+                                           lineno=call.lineno)]
         sub = dict(zip(params, call.args))
         if va is not None:
             sub[va] = ast.Tuple(elts=list(call.args[len(params):]), ctx=ast.Load())
@@ -123,6 +128,8 @@ class Ser:
 
         class T(ast.NodeTransformer):
             def visit_Name(self, node):
+                if node.id == '@result':
+                    return ast.copy_location(ast.Name(id=result.id, ctx=ast.Store()), node)
                 if node.id in sub:
                     return copy.deepcopy(sub[node.id])
                 if node.id in locals_:
@@ -133,7 +140,7 @@ class Ser:
             for node in ast.walk(b):
                 if isinstance(node, ast.Return):
                     fail('helper method returns a value / returns early', node)
-                if isinstance(node, ast.Name) and isinstance(node.ctx, ast.Store) and node.id not in sub:
+                if isinstance(node, ast.Name) and isinstance(node.ctx, ast.Store) and node.id not in sub and node.id != '@result':
                     locals_.add(node.id)
                 if isinstance(node, ast.Name) and isinstance(node.ctx, ast.Store) and node.id in sub:
                     fail('helper method assigns to its parameter', node)
@@ -271,6 +278,20 @@ class Ser:
                 env2 = dict(env)
                 env2[x] = 'lists'
                 return f'(let {cname(x)} := {self.listdisplay(st.value, env)} in {self.stmts(rest, env2, k, top)})'
+            # x = self._helper(args): the helper's body, its final `return E` becoming `x = E`
+            if isinstance(st.value, ast.Call) and isinstance(st.value.func, ast.Attribute) and isinstance(st.value.func.value, ast.Name) \
+                    and st.value.func.value.id == 'self' and st.value.func.attr in self.helpers:
+                return self.stmts(self.inline(st.value, result=st.targets[0]) + list(rest), env, k, top)
+            # a value named before it is used: the same expression bound once (list.index may raise: evaluated here)
+            self.hoist = []
+            code = self.expr(st.value, env)
+            hoisted, self.hoist = self.hoist, []
+            env2 = dict(env)
+            env2[x] = 'N'
+            if len(hoisted) == 1 and code == hoisted[0][0]:
+                return f'w_opt {hoisted[0][1]} (fun {cname(x)} => {self.stmts(rest, env2, k, top)})'
+            if not hoisted:
+                return f'(let {cname(x)} := {code} in {self.stmts(rest, env2, k, top)})'
             fail('assignment outside the subset', st)
         if isinstance(st, ast.AnnAssign) and isinstance(st.target, ast.Name) and isinstance(st.value, ast.List) \
                 and all(isinstance(el, ast.Name) for el in st.value.elts):
@@ -402,6 +423,8 @@ def canon_body(body):
        * `r = []; for i in R: [e = E;] r.append(e|E); return tuple(r)`  ==  `return tuple(E for i in R)`"""
     out = []
     for st in body:
+        if isinstance(st, ast.Expr) and isinstance(st.value, ast.Constant) and isinstance(st.value.value, str):
+            continue          # docstring
         if isinstance(st, ast.Assert) and isinstance(st.test, ast.Compare) and len(st.test.ops) == 1 \
                 and isinstance(st.test.ops[0], ast.IsNot) and isinstance(st.test.left, ast.Name) \
                 and isinstance(st.test.comparators[0], ast.Constant) and st.test.comparators[0].value is None:
@@ -630,6 +653,22 @@ def canon_branch(body, helpers, counter):
                           args=[ast.Call(func=ast.Name(id='reversed', ctx=ast.Load()), args=[st.value], keywords=[])], keywords=[])
             body[i:i + 2] = [ast.fix_missing_locations(ast.Assign(targets=[st.targets[0]], value=rv, lineno=st.lineno))]
             continue
+        # ---- a local that is only a name for a read of the interpreter state (nothing is called in between:
+        #      the only interpreter call of an arm is its last statement, and its arguments are evaluated first)
+        if isinstance(st, ast.Assign) and len(st.targets) == 1 and isinstance(st.targets[0], ast.Name) \
+                and isinstance(st.value, ast.Attribute) and isinstance(st.value.value, ast.Name) \
+                and st.value.attr in ('memory', 'stack', 'claims', 'phase') and st.targets[0].id != '_':
+            x, val = st.targets[0].id, st.value
+            later_stores = [nd.id for b in body[i + 1:] for nd in ast.walk(b)
+                            if isinstance(nd, ast.Name) and isinstance(nd.ctx, ast.Store)]
+            if x not in later_stores and val.value.id not in later_stores:
+                class B(ast.NodeTransformer):
+                    def visit_Name(self, node):
+                        if node.id == x and isinstance(node.ctx, ast.Load):
+                            return copy.deepcopy(val)
+                        return node
+                body[i:] = [ast.fix_missing_locations(B().visit(copy.deepcopy(b))) for b in body[i + 1:]]
+                continue
         # ---- a local that is only a second name for another local
         if isinstance(st, ast.Assign) and len(st.targets) == 1 and isinstance(st.targets[0], ast.Name) \
                 and isinstance(st.value, ast.Name) and st.targets[0].id != '_' and st.targets[0].id != st.value.id:
@@ -834,6 +873,10 @@ class Deser:
                     env2 = dict(env)
                     env2[x] = 'term'
                     return f'match stack_at {k} tr with Some {cname(x)} => {self.stmts(rest, env2)} | None => None end'
+                if ast.unparse(v) == f'len({self.I}.memory)':
+                    env2 = dict(env)
+                    env2[x] = 'N'
+                    return f'(let {cname(x)} := py_len (t_memory tr) in {self.stmts(rest, env2)})'
                 sl = self.raw_slice(v, env)
                 if sl is not None:
                     env2 = dict(env)
@@ -1089,6 +1132,69 @@ def inline_constants(tree, fn):
     return ast.fix_missing_locations(T().visit(copy.deepcopy(fn)))
 
 
+def join_split(tree, fn):
+    """the loop body `execute(decode(byte), a, b, ..)` with module-level
+         def decode(b): try: return E  except X: raise ..        def execute(instruction, p, q, ..): <dispatch>
+       == `try: instruction = E[b:=byte] except X: raise ..` followed by the dispatch with p, q, .. bound to a, b, .."""
+    import copy
+    if not fn.body or not isinstance(fn.body[-1], (ast.While, ast.For)):
+        return fn
+    loop = fn.body[-1]
+    funcs = {n.name: n for n in tree.body if isinstance(n, ast.FunctionDef) and n is not fn}
+    if not (len(loop.body) == 1 and isinstance(loop.body[0], ast.Expr) and isinstance(loop.body[0].value, ast.Call)
+            and isinstance(loop.body[0].value.func, ast.Name) and loop.body[0].value.func.id in funcs):
+        return fn
+    call = loop.body[0].value
+    ex = funcs[call.func.id]
+    params = [a.arg for a in ex.args.args]
+    if call.keywords or len(call.args) != len(params) or ex.args.vararg or ex.args.kwarg or ex.args.kwonlyargs or ex.args.defaults:
+        fail('executor call outside the subset', call)
+    pre = []
+    sub = {}
+    for pname, a in zip(params, call.args):
+        if isinstance(a, ast.Name):
+            sub[pname] = a.id
+        elif isinstance(a, ast.Call) and isinstance(a.func, ast.Name) and a.func.id in funcs and len(a.args) == 1 \
+                and isinstance(a.args[0], ast.Name) and not a.keywords and not pre:
+            dec = funcs[a.func.id]
+            body = [b for b in dec.body if not (isinstance(b, ast.Expr) and isinstance(b.value, ast.Constant))]
+            if not (len(dec.args.args) == 1 and len(body) == 1 and isinstance(body[0], ast.Try) and len(body[0].body) == 1
+                    and isinstance(body[0].body[0], ast.Return) and not body[0].orelse and not body[0].finalbody):
+                fail('decoder is not `try: return E except ..: raise ..`', dec)
+            dparam, arg = dec.args.args[0].arg, a.args[0].id
+
+            class D(ast.NodeTransformer):
+                def visit_Name(self, node):
+                    if node.id == dparam:
+                        return ast.copy_location(ast.Name(id=arg, ctx=node.ctx), node)
+                    return node
+            tr = D().visit(copy.deepcopy(body[0]))
+            tr.body = [ast.Assign(targets=[ast.Name(id=pname, ctx=ast.Store())], value=tr.body[0].value, lineno=dec.lineno)]
+            pre.append(tr)
+            sub[pname] = pname
+        else:
+            fail('executor argument outside the subset', call)
+    def own_returns(node):
+        for ch in ast.iter_child_nodes(node):
+            if isinstance(ch, (ast.FunctionDef, ast.Lambda, ast.ClassDef)):
+                continue
+            if isinstance(ch, ast.Return):
+                yield ch
+            yield from own_returns(ch)
+    if any(True for b in ex.body for _ in ([b] if isinstance(b, ast.Return) else own_returns(b))):
+        fail('executor returns', ex)
+
+    class E(ast.NodeTransformer):
+        def visit_Name(self, node):
+            if node.id in sub:
+                return ast.copy_location(ast.Name(id=sub[node.id], ctx=node.ctx), node)
+            return node
+    exbody = [b for b in ex.body if not (isinstance(b, ast.Expr) and isinstance(b.value, ast.Constant) and isinstance(b.value.value, str))]
+    fn2 = copy.deepcopy(fn)
+    fn2.body[-1].body = pre + [E().visit(copy.deepcopy(b)) for b in exbody]
+    return ast.fix_missing_locations(fn2)
+
+
 def declass_readers(tree, fn):
     """closures sharing `nonlocal` state  ==  methods of a private class holding that state:
          class _R:  __init__(self, p): self._a = p; self._i = <const>      r = _R(data)
@@ -1188,6 +1294,7 @@ def deserializer(src, opnames):
     if len(fns) != 1:
         fail('deserialize_instructions not found')
     fn = fns[0]
+    fn = join_split(tree, fn)
     tree, fn = declass_readers(tree, fn)
     fn = inline_constants(tree, fn)
     # private module-level helper functions: inlined where the dispatch calls them
@@ -1195,7 +1302,7 @@ def deserializer(src, opnames):
     if len(fn.args.args) != 2:
         fail('deserialize_instructions: parameters changed', fn)
     data, interp = fn.args.args[0].arg, fn.args.args[1].arg
-    body = fn.body
+    body = [b for b in fn.body if not (isinstance(b, ast.Expr) and isinstance(b.value, ast.Constant) and isinstance(b.value.value, str))]
     ref = ast.parse(REF_HELPERS.replace('data', data)).body
     if len(body) != len(ref) + 1:
         fail('deserialize_instructions: statements besides the three readers and the loop', fn)
